@@ -202,25 +202,7 @@ def rule_order(ck):
                    ok=f"{what} on every normal path after the scheduler call", bad=f"a path from the scheduler call to the next period skips the {what}",
                    sink=f"flags:{what}:every-path")
 
-    # _process_event raises the flag on every event branch
-    pe = repo.fn("Simulator._process_event")
-    pfl = flow_of(pe)
-    from .c01 import dispatch_branches, event_type_literals
-    br = dispatch_branches(pfl, pe.params[1])
-    lits = set(event_type_literals(repo).values())
-    ck.require(set(br) >= lits, "C05.R3", pe, "dispatch", ok="every event type dispatched", bad=f"event types without a branch: {sorted(lits - set(br))}",
-               sink="flags:dispatch")
-    for lit, edge in sorted(br.items()):
-        reg = region(pfl, edge)
-        trues = [n for n, k, p, t in state_writes(pfl) if p == "self._resolve" and n in reg and isinstance(n.stmt, ast.Assign)
-                 and isinstance(n.stmt.value, ast.Constant) and n.stmt.value.value is True]
-        every = bool(trues) and pfl.cfg.exit not in pfl.cfg.reach(edge, avoid=set(trues) | {pfl.cfg.raise_exit})
-        ck.require(every, "C05.R3", pe, f"{lit} branch", ok=f"a {lit} event demands a new schedule (resolve = True on every path)",
-                   bad=f"the {lit} branch does not set self._resolve = True on every path: the scheduler is not invoked in the period of this event",
-                   sink=f"flags:{lit}:resolve")
-        falses = [n for n, k, p, t in state_writes(pfl) if p == "self._resolve" and n in reg and n not in trues]
-        ck.require(not falses, "C05.R3", pe, falses[0].stmt if falses else f"{lit} branch", ok="flag only raised here", bad="an event branch clears the resolve flag",
-                   sink=f"flags:{lit}:no-clear")
+    rule_event_flags(ck)
     # initial state
     init = repo.fn("Simulator.__init__")
     ifl = flow_of(init)
@@ -238,6 +220,29 @@ def rule_order(ck):
                 continue
             ck.require(f.qual in allowed, "C05.R3", f, t, ok=f"{attr} written by the simulator's own bookkeeping",
                        bad=f"{attr} is written outside the simulator's scheduling bookkeeping ({f.qual})", sink=f"flags:writer:{attr}:{f.qual}")
+
+
+def rule_event_flags(ck, rid="C05.R3"):
+    """every event branch of _process_event demands a new schedule (resolve = True on every path, never cleared there)"""
+    repo = ck.repo
+    pe = repo.fn("Simulator._process_event")
+    pfl = flow_of(pe)
+    from .c01 import dispatch_branches, event_type_literals
+    br = dispatch_branches(pfl, pe.params[1])
+    lits = set(event_type_literals(repo).values())
+    ck.require(set(br) >= lits, rid, pe, "dispatch", ok="every event type dispatched", bad=f"event types without a branch: {sorted(lits - set(br))}",
+               sink="flags:dispatch")
+    for lit, edge in sorted(br.items()):
+        reg = region(pfl, edge)
+        trues = [n for n, k, p, t in state_writes(pfl) if p == "self._resolve" and n in reg and isinstance(n.stmt, ast.Assign)
+                 and isinstance(n.stmt.value, ast.Constant) and n.stmt.value.value is True]
+        every = bool(trues) and pfl.cfg.exit not in pfl.cfg.reach(edge, avoid=set(trues) | {pfl.cfg.raise_exit})
+        ck.require(every, rid, pe, f"{lit} branch", ok=f"a {lit} event demands a new schedule (resolve = True on every path)",
+                   bad=f"the {lit} branch does not set self._resolve = True on every path: the scheduler is not invoked in the period of this event",
+                   sink=f"flags:{lit}:resolve")
+        falses = [n for n, k, p, t in state_writes(pfl) if p == "self._resolve" and n in reg and n not in trues]
+        ck.require(not falses, rid, pe, falses[0].stmt if falses else f"{lit} branch", ok="flag only raised here", bad="an event branch clears the resolve flag",
+                   sink=f"flags:{lit}:no-clear")
 
 
 # ----------------------------------------------------------------------------
